@@ -428,7 +428,46 @@ fn scenario_case(rng: &mut Rng, rep: &mut Report, i: u64, spec: &Spec) {
         }
     }
 
+/// `c02 --miri-slice <seed> <cases> <max seconds>`: single-threaded, no files, no child process, no watchdog. The `generated`
+/// workload sized down: a small class from cf::gen (no stack-map frames: the writer drops them, a known finding whose report
+/// costs seconds of interpreter time) with names / descriptors / strings redrawn from cf::hostile, emitted under a canonical or a
+/// random layout, read by the real reader, written by the real writer, validated by the strict parser, compared fact by fact,
+/// event log checked, read again - `judge_source` as it is; every second case also after dukebox's remap with the seeded renamer
+/// (quill's descriptor rewriting runs on the hostile names).
+fn miri_slice(seed: u64, cases: usize, max_s: u64) -> i32 {
+    let mut rep = Report::new();
+    let deadline = std::time::Instant::now() + std::time::Duration::from_secs(max_s);
+    let cfg = gen::GenCfg { max_fields: 2, max_methods: 2, max_insns: 6, frames: false, ..gen::GenCfg::default() };
+    let mut tags = std::collections::BTreeSet::new();
+    let (mut i, mut bytes_in, mut wrote) = (0u64, 0usize, 0usize);
+    while (i as usize) < cases && std::time::Instant::now() < deadline {
+        let mut rng = Rng::new(common::rng::case_seed(seed, "C02/miri", i));
+        rep.cur = ("miri".into(), i);
+        let mut m = gen::gen_class(&mut rng, &cfg);
+        tags.extend(cf::hostile::hostilise(&mut rng, &mut m, (1, 2), if i % 8 == 7 { 1500 } else { 40 }));
+        let layout = if i % 2 == 0 { emit::Layout::canonical() } else { let mut l = emit::Layout::random(rng.next_u64()); if rng.chance(1, 3) { l.pool_filler = 240 + rng.below(30); } l };
+        let lname = if layout.canonical { "canonical".to_string() } else { format!("random seed={} filler={}", layout.seed, layout.pool_filler) };
+        i += 1;
+        let Ok(bytes) = emit::emit(&m, &layout) else { rep.count("emit.skipped"); continue; };
+        match parse::parse(&bytes) {
+            Ok(p) if p == m => {}
+            other => { eprintln!("HARNESS-ERROR miri slice: parse(emit(M)) != M (case {}, layout {lname}): {:?}", i - 1, other.err()); return 3; }
+        }
+        bytes_in += bytes.len();
+        let info = json!({"layout": lname});
+        let rename = if (i / 2) % 2 == 0 { Some(rng.next_u64()) } else { None };
+        let outs = judge_source(&mut rep, "generated (miri slice, hostile names)", &bytes, &info, rename, None);
+        wrote += outs.iter().filter(|o| o.wrote).count();
+    }
+    for v in rep.violations.values() { println!("SLICE-OBSERVATION {} ({}x)", v.signature, v.count); }
+    println!("MIRI-SLICE done cases={} (asked for {}) evaluations={} observations={} source_bytes={} writes_plain={} writes_renamed={} written={} compared_equal={} reread_equal={} reader_rejected_source={} remap_refused={} hostile_kinds={}",
+        i, cases, rep.evaluations, rep.violations.len(), bytes_in, rep.get("writes.plain"), rep.get("writes.renamed"), wrote, rep.get("compare.equal"), rep.get("compare.reread.equal"),
+        rep.get("reader.rejected_source(not judged)") + rep.get("reader.panicked_on_source(not judged)"), rep.get("remap.refused(not judged)") + rep.get("remap.panicked(not judged)"), tags.len());
+    0
+}
+
 fn main() {
+    if let Some((seed, n, max_s)) = common::miri::slice_args() { std::process::exit(miri_slice(seed, n, max_s)); }
     filter_stderr();
     let mut ctx = Ctx::from_args("C02", 40, 540);
     let replay = load_replay(&mut ctx);
@@ -519,9 +558,20 @@ fn main() {
         meta.oblige("at least 150 opcode families in the generated classes, locals in all three index classes", rep.seen_n("insn") >= 150 && rep.seen_n("local") >= 3);
         meta.oblige("at most 10% of the scenarios could not be generated or read", (rep.get("scenario.generation_failed") + rep.get("scenario.reader_changed_the_model")) * 10 <= (specs.len() + specs_more.len()) as u64 && rep.get("scenario.tree_equals_model") > 0);
     }
+    if replay.is_none() {
+        if ctx.tier == Tier::Thorough {
+            PROGRESS.fetch_add(1, std::sync::atomic::Ordering::Relaxed);
+            let r = common::miri::run_slice(&ctx, "c02", env!("CARGO_MANIFEST_DIR"), MIRI_CASES, 170, 290);
+            if let Some(line) = r.ub { rep.cur = ("miri".into(), 0); rep.violation(format!("miri: {line}"), json!({"how": format!("cargo +nightly miri run --offline -p c02 -- --miri-slice <seed> {MIRI_CASES} 170"), "seed": ctx.seed as i64, "status": r.status})); }
+            meta.extra.insert("miri_slice".into(), json!(r.status));
+        } else { meta.extra.insert("miri_slice".into(), json!("not run in the quick tier")); }
+    }
     DONE.store(true, std::sync::atomic::Ordering::Relaxed);
     std::process::exit(finish(&ctx, rep, meta));
 }
+/// cases asked of the Miri slice in the thorough tier; it stops by itself after 170 s (see NOTES.md). The slice's wall cap (290 s)
+/// stays below the watchdog's 300 s without a write.
+const MIRI_CASES: usize = 20;
 
 /// dukebox's remap prints a `todo:` line per signature it does not remap; the monitor re-executes itself with stderr
 /// piped and drops exactly those lines (everything else, in particular HARNESS-ERROR lines, is forwarded unchanged).
